@@ -86,6 +86,7 @@ type Sched struct {
 	traceOn   bool
 	// OnStep, when set, is called (by the goroutine holding the turn) at every scheduling point.
 	nextID int
+	lastID int
 }
 
 // S is the active scheduler (nil outside Run).
@@ -344,6 +345,7 @@ func (s *Sched) sched(self *G) {
 		}
 		s.steps++
 		next := all[i].G
+		s.lastID = next.ID
 		if next == self {
 			self.blocked = nil
 			return
@@ -538,10 +540,26 @@ func (Default) Choose(step int, cands []Choice, cur int) int {
 	if cur >= 0 {
 		return cur
 	}
+	// non-preemptive round robin: the next enabled goroutine after the one that ran last (so a
+	// goroutine that was preempted is resumed only after the others had their turn)
+	last := -1
+	if S != nil {
+		last = S.lastID
+	}
+	best := -1
 	for i, c := range cands {
-		if !c.Timer {
+		if c.Timer {
+			continue
+		}
+		if c.G.ID > last {
 			return i
 		}
+		if best < 0 {
+			best = i
+		}
+	}
+	if best >= 0 {
+		return best
 	}
 	return 0
 }
